@@ -52,7 +52,7 @@ def conforming_sweep(rng, n):
     return cmds
 
 POOL = [0, 1, 2, 3, 255, 256, -1, -128, -129, 127, 128, 65535, 65536, 2**31 - 1, 2**31, -2**31, -2**31 - 1, 2**32 - 1,
-        2**32, 2**64, 10**30, 10**400, True, False, None, 0.0, -0.0, 1.5, 123.456789, 1e-9, 1e30, 1e308, float("nan"),
+        2**32, 2**64, 10**30, 10**400, 10**5000, -10**5000, True, False, None, 0.0, -0.0, 1.5, 123.456789, 1e-9, 1e30, 1e308, float("nan"),
         float("inf"), -float("inf"), 0.3, 3653.90516, -7.25, "", "a", "abc", "\u00e9", b"", b"\x01", b"\x01\x02", b"abcdef",
         b"\x00" * 30, [], [1], [1, 2, 3], [0] * 250, [0] * 256, [256] * 256, ["a"] * 256, [1.5] * 256, (1, 2)]
 
